@@ -848,3 +848,18 @@ pub fn handler_style_expected(case: &Case, model: &Model) -> BTreeSet<KRow> {
         })
         .collect()
 }
+
+
+/// Root cause shared by several properties: mutually recursive relations are not evaluated to a
+/// fixpoint (known finding C01-mutual-recursion) and their answers then depend on rule order.
+pub const K_MUTUAL: &str = "C01-mutual-recursion";
+
+/// While that finding is open, programs with mutual recursion are excluded by construction
+/// (counted as excluded_known) in the properties it also affects.
+pub fn exclude_mutual(ctx: &crate::common::Ctx, f: &Features, obs: &mut crate::common::Obs) -> bool {
+    if f.mutual_recursion && ctx.is_open_known(K_MUTUAL) {
+        obs.excluded_known = Some(K_MUTUAL.into());
+        return true;
+    }
+    false
+}
